@@ -349,6 +349,10 @@ func (e *Engine) genFunction(fn *ssa.Function) (fc *fnCtx, err error) {
 		}
 	}()
 	fc.c.Used = true
+	if fc.c.Trusted {
+		fc.abstract("TRUSTED contract: body not verified")
+		return fc, nil
+	}
 	st := &state{reach: "true", heap: map[string]string{}, alloc: ""}
 	st.alloc = fc.sc.declare("alloc0", "Int")
 	fc.sc.assume("(>= " + st.alloc + " 1)")
@@ -386,12 +390,12 @@ func (e *Engine) genFunction(fn *ssa.Function) (fc *fnCtx, err error) {
 	// returns
 	for _, rr := range fr.retStates {
 		env := fr.specEnv(rr.st, fr.old)
+		fr.bindResults(env, rr.results)
 		for k, v := range fr.localsAt(rr.instr.Block()) {
 			if _, ok := env.vars[k]; !ok {
 				env.vars[k] = v
 			}
 		}
-		fr.bindResults(env, rr.results)
 		for i, en := range fc.c.Ensures {
 			label := en.Label
 			if label == "" {
@@ -781,6 +785,47 @@ func (fr *frame) loopVars(h *ssa.BasicBlock) map[string]TV {
 		}
 	}
 	return vars
+}
+
+// addrLocal resolves a named local that lives in an allocation (struct locals, captured variables):
+// its value is loaded from the given state.
+func (fr *frame) addrLocal(st *state, name string) (TV, bool) {
+	u := fr.fc.e.u
+	var found *ssa.Alloc
+	for _, b := range fr.fn.Blocks {
+		for _, in := range b.Instrs {
+			dr, ok := in.(*ssa.DebugRef)
+			if !ok || !dr.IsAddr {
+				continue
+			}
+			id, ok := dr.Expr.(*ast.Ident)
+			if !ok || id.Name != name {
+				continue
+			}
+			al, ok := dr.X.(*ssa.Alloc)
+			if !ok {
+				continue
+			}
+			if found != nil && found != al {
+				return TV{}, false
+			}
+			found = al
+		}
+	}
+	if found == nil {
+		return TV{}, false
+	}
+	ref, ok := fr.regs[found]
+	if !ok {
+		return TV{}, false
+	}
+	et := found.Type().Underlying().(*types.Pointer).Elem()
+	site := fr.allocSite(found)
+	if u.structInfoOf(et) != nil {
+		return TV{T: fr.loadStruct(st, ref, et, site), Sort: u.sortOf(et), Typ: et}, true
+	}
+	srt := u.sortOf(et)
+	return TV{T: app("select", fr.fc.hget(st, "C|"+srt+site), ref), Sort: srt, Typ: et}, true
 }
 
 // localsAt: uniquely-defined named locals whose definition dominates block b.
